@@ -122,6 +122,25 @@ def r12_2(ck):
                    'updates (not in the jump branches)',
                    'a history row is emitted in a jump branch where no '
                    'update was applied', e)
+    # with emit_step 1 there is a row for EVERY time updates were applied:
+    # some emit is guarded by `emit_step == 1` and by nothing else beyond
+    # the guards of the _send_updates call
+    every = False
+    for e in emits:
+        base = set()
+        for c in rf.calls('_send_updates'):
+            base |= cfg.guards(cfg.node(c))
+        extra = cfg.guards(cfg.node(e)) - base
+        if extra and all(a[0] == '==' and 'self.emit_step' in a[1:] and
+                         '1' in a[1:] for a in extra):
+            every = True
+    ck.require(every, 'R12.2', f, 'emit for emit_step == 1',
+               'with emit_step 1 a row is emitted after every batch of '
+               'updates, whatever the emit clock says',
+               'no history emit is tied to `emit_step == 1` alone: with '
+               'emit_step 1 and fractional or staggered timesteps, times '
+               'at which updates were applied get no row',
+               emits[0] if emits else None)
     # emit_step handling: either every step, or when emit_time is reached
     for e in emits:
         g = cfg.guards(cfg.node(e))
@@ -304,6 +323,22 @@ def r12_5(ck):
     txt = A.unparse(sev.node)
     ok = 'self.emit = emit' in txt and 'child.set_emit_value(emit=emit)' in \
         txt
+    csev = cfg_of(sev.node)
+    for c in A.calls_in(sev.node, 'set_emit_value'):
+        if A.is_name(A.call_receiver(c), 'self'):
+            continue
+        lp = c
+        while lp is not None and not isinstance(lp, ast.For):
+            lp = lp._parent
+        if lp is None:
+            continue
+        extra = csev.guards(csev.node(c)) - csev.guards(
+            csev.loops[id(lp)]['body_entry'])
+        ck.require(not extra, 'R12.5', sev, c,
+                   'the flag is pushed down to every child unconditionally',
+                   'children are skipped under %s when a branch flag is '
+                   'propagated: leaves deeper in the branch keep their old '
+                   'flag' % sorted(extra), c)
     ck.require(ok, 'R12.5', sev, sev.node.name,
                'set_emit_value sets the flag on every leaf below', None)
     e = ck.fn('RAMEmitter.emit', 'core.emitter')
